@@ -440,7 +440,7 @@ fn run_streaming(bytes: Vec<u8>, consume: usize, k: Flt) -> (String, u64, bool, 
     match r { Ok((s, e, d)) => (s, calls.get(), e, d), Err(_) => ("panic".into(), calls.get(), true, false) }
 }
 
-/// A stream whose first entry hides, exactly one or two 64 KiB drain reads behind the bytes the consumer takes,
+/// A stream whose first entry hides, exactly zero, one or two 64 KiB drain reads behind the bytes the consumer takes,
 /// something that parses as the continuation of a ZIP stream: a nested stored archive (its first local header)
 /// or a central-directory signature.  `Drop for ZipFile` drains in 64 KiB reads and ends silently at an error,
 /// so a fault in the second / third drain read leaves the stream positioned right there.
@@ -453,7 +453,8 @@ fn nested_stream_archive(r: &mut Rng, consume: usize) -> Vec<u8> {
         w.finish().map(|c| c.into_inner()).unwrap_or_default()
     };
     let mut content = r.bytes(consume);
-    content.extend(std::iter::repeat(0x2eu8).take(65536 * r.range(1, 2) as usize));
+    // 0: the FIRST drain read is the one that matters (the Lean witness `nestedStream`), 1 / 2: the second / third
+    content.extend(std::iter::repeat(0x2eu8).take(65536 * r.below(3) as usize));
     if r.chance(2, 3) { content.extend_from_slice(&inner); } else { content.extend_from_slice(b"PK\x01\x02 not a central header"); }
     let mut w = zip::ZipWriter::new(Cursor::new(vec![]));
     let _ = w.start_file("a", stored);
